@@ -47,12 +47,20 @@ def anycase(s, k):
 @st.composite
 def configs(draw):
     names = [n for _, n in traffic.MANUFACTURERS if n]
-    mode = draw(st.sampled_from(["none", "exclude", "include"]))
-    lst = []
+    mode = draw(st.sampled_from(["none", "exclude", "include", "both", "both"]))
+    lst, lst2 = [], []
     if mode != "none":
         for _ in range(draw(st.integers(1, 3))):
             lst.append(anycase(draw(st.sampled_from(names + ["Nobody Inc"])), draw(st.integers(0, 3))))
-    return {"mode": mode, "list": lst, "map": draw(st.booleans()), "filter_claims": draw(st.sampled_from([None, None, "num", "id"]))}
+    if mode == "both":
+        # an exclude list AND an include list (the constructor takes both): a manufacturer passes if it passes each of them. The
+        # include list overlaps the exclude list more often than not - that is where "passes both" differs from "passes one".
+        for _ in range(draw(st.integers(1, 3))):
+            lst2.append(anycase(draw(st.sampled_from(names + [x for x in lst] * 2)), draw(st.integers(0, 3))))
+    cfg = {"mode": mode, "list": lst, "map": draw(st.booleans()), "filter_claims": draw(st.sampled_from([None, None, "num", "id"]))}
+    if mode == "both":
+        cfg["include_list"] = lst2
+    return cfg
 
 
 def run_case(cfg, pool, items, offsets):
@@ -67,6 +75,9 @@ def run_case(cfg, pool, items, offsets):
             kw["exclude_manufacturer_code"] = list(cfg["list"])
         elif cfg["mode"] == "include":
             kw["include_manufacturer_code"] = list(cfg["list"])
+        elif cfg["mode"] == "both":
+            kw["exclude_manufacturer_code"] = list(cfg["list"])
+            kw["include_manufacturer_code"] = list(cfg["include_list"])
         if cfg["filter_claims"] == "num":
             kw["exclude_pgns"] = [60928]
         elif cfg["filter_claims"] == "id":
@@ -74,6 +85,7 @@ def run_case(cfg, pool, items, offsets):
         dec = NMEA2000Decoder(**kw)
         model = {}
         lst = {x.lower() for x in cfg["list"]}
+        lst2 = {x.lower() for x in cfg.get("include_list", [])}
         out = []
         msg_ok = {}          # message index -> all frames accepted so far
         stats = {"reclaim": 0, "claimed_sources": 0, "data_before_claim": 0, "withheld": 0, "filtered": 0, "returned": 0}
@@ -118,6 +130,8 @@ def run_case(cfg, pool, items, offsets):
                 if cfg["mode"] == "exclude" and m in lst:
                     gate = False
                 if cfg["mode"] == "include" and m not in lst:
+                    gate = False
+                if cfg["mode"] == "both" and (m in lst or m not in lst2):
                     gate = False
                 if not gate:
                     stats["filtered"] += 1
